@@ -3795,6 +3795,10 @@ static void generate_toplevel_globals(StringBuilder *sb, ASTNode *program, Envir
             } else {
                 sb_append(sb, "void*");
             }
+        } else if (item->as.let.var_type == TYPE_STRUCT && item->as.let.type_name &&
+                   !env_get_opaque_type(env, item->as.let.type_name)) {
+            /* struct-typed global: type_to_c() only knows the bare keyword */
+            sb_append(sb, get_prefixed_type_name(item->as.let.type_name));
         } else {
             sb_append(sb, type_to_c(item->as.let.var_type));
         }
